@@ -16,6 +16,7 @@ import (
 	"path/filepath"
 	"reflect"
 	"regexp"
+	"regexp/syntax"
 	"runtime/debug"
 	"sort"
 	"strconv"
@@ -36,7 +37,7 @@ import (
 type h struct{}
 
 func (h) Rule() string {
-	return "two fixed regression cases (min-should under score none / fuzziness 0; postings iterator reused after recycle), then geo-corner corpora (one query circle per corpus: runs of 2-4 doc-adjacent points in the corners of the circle's bounding box = inside the cell cover but 1.3 radii from the centre, most carrying a rare keyword tag, plus inside / far / point-less documents, no point within 20% of the edge; nine boolean shapes that put the geo clause beside the rarer tag so that the filtering geo searcher is ADVANCED), then merged-segment corpora (three batches whose documents carry keywords occurring exactly once, merged into ONE segment by a writer whose merge budget is one segment - those postings lists are 1-hit encoded -, the index reopened with merging inert, one later batch of at least as many documents without those keywords; score-none disjunctions / prefix / wildcard / regexp / fuzzy / range rewrites over the once-only keywords), date-edge corpora (datetime values within 2^52 ns of either end of the int64 nanosecond time line next to ordinary dates, half-open date ranges facing those ends), then seeded corpora of 6-40 documents (text fields t,u over a 3-8 word vocabulary of short a-d words sharing prefixes and one edit apart, keyword k, numeric n / datetime d / geo point g from boundary pools) spread over 2-6 batches with deletes and updates of live ids from the second batch on (70% with background merging made inert), each followed by 25 random query trees of depth <= 4 (term, match, phrase, multi-phrase, prefix, wildcard, regexp, fuzzy, term/numeric/date range, geo box/distance (at most one geo leaf, in half of the trees), match-all/none leaves under boolean nodes with must/should/mustNot/minShould, 15% of booleans with 11-12 should clauses), plus (thorough) an exhaustive block of all subsets of {a,b,c} over five documents with 24 boolean shapes of depth <= 2 each. Per corpus and reader one `snap` line prints the physical layout of the snapshot (real offsets, segment sizes, stored ids, deleted marks). Every query runs as AllMatches, TopN(1000) and TopN(1000)+SetScore(none) on ONE long-lived reader per corpus (the writer's current root) and on a reference reader taken one epoch earlier whose snapshot never recycles postings iterators (a difference is printed as `<ids> !fresh=<ids>`), and twice more (scored, score none) as a TRACE: the real searcher tree is rebuilt on the reader's snapshot, every node wrapped in a logging search.Searcher, driven by the real collector; the tree shape (with the real per-segment contents of every postings leaf) and every node's Next/Advance calls and answers are printed. A case is one q line and is non-trivial when its AllMatches result is neither empty nor all live documents"
+	return "two fixed regression cases (min-should under score none / fuzziness 0; postings iterator reused after recycle), then geo-corner corpora (one query circle per corpus: runs of 2-4 doc-adjacent points in the corners of the circle's bounding box = inside the cell cover but 1.3 radii from the centre, most carrying a rare keyword tag, plus inside / far / point-less documents, no point within 20% of the edge; nine boolean shapes that put the geo clause beside the rarer tag so that the filtering geo searcher is ADVANCED), then merged-segment corpora (three batches whose documents carry keywords occurring exactly once, merged into ONE segment by a writer whose merge budget is one segment - those postings lists are 1-hit encoded -, the index reopened with merging inert, one later batch of at least as many documents without those keywords; score-none disjunctions / prefix / wildcard / regexp / fuzzy / range rewrites over the once-only keywords), date-edge corpora (datetime values within 2^52 ns of either end of the int64 nanosecond time line next to ordinary dates, half-open date ranges facing those ends), then regexp-fold corpora (keyword terms in lower, upper and mixed case sharing their letters; regexp patterns whose left-most literal is case-folded — (?i)…, (?i:…)…, [aA]…, factored folded alternations, also behind a leading capture group — and control patterns with a case-sensitive literal prefix, each as a positive clause and as a must-not clause; the accepted terms of every regexp leaf come from Go regexp over the FULL dictionary), then seeded corpora of 6-40 documents (text fields t,u over a 3-8 word vocabulary of short a-d words sharing prefixes and one edit apart, keyword k, numeric n / datetime d / geo point g from boundary pools) spread over 2-6 batches with deletes and updates of live ids from the second batch on (70% with background merging made inert), each followed by 25 random query trees of depth <= 4 (term, match, phrase, multi-phrase, prefix, wildcard, regexp, fuzzy, term/numeric/date range, geo box/distance (at most one geo leaf, in half of the trees), match-all/none leaves under boolean nodes with must/should/mustNot/minShould, 15% of booleans with 11-12 should clauses), plus (thorough) an exhaustive block of all subsets of {a,b,c} over five documents with 24 boolean shapes of depth <= 2 each. Per corpus and reader one `snap` line prints the physical layout of the snapshot (real offsets, segment sizes, stored ids, deleted marks). Every query runs as AllMatches, TopN(1000) and TopN(1000)+SetScore(none) on ONE long-lived reader per corpus (the writer's current root) and on a reference reader taken one epoch earlier whose snapshot never recycles postings iterators (a difference is printed as `<ids> !fresh=<ids>`), and twice more (scored, score none) as a TRACE: the real searcher tree is rebuilt on the reader's snapshot, every node wrapped in a logging search.Searcher, driven by the real collector; the tree shape (with the real per-segment contents of every postings leaf) and every node's Next/Advance calls and answers are printed. A case is one q line and is non-trivial when its AllMatches result is neither empty nor all live documents"
 }
 
 // ---------------------------------------------------------------------------------------------
@@ -1284,6 +1285,33 @@ func execQuery(line, src string, out func(string, string), st *hlib.Stats) {
 	}
 	aq, _ := annotate(q)
 	as := aq.String()
+	// regexp leaves whose left-most literal is case-folded (regexp/syntax keeps the upper-case spelling of such a
+	// literal): a literal-prefix optimisation must not confine the dictionary walk to that spelling
+	walk(aq, func(n *sx, _ int) {
+		if n.head() != "re" || len(n.kids) < 4 || n.kids[2].list || !n.kids[3].list {
+			return
+		}
+		pat, err := rePattern(n.kids[2].atom)
+		if err != nil {
+			return
+		}
+		lit, folded := leftmostLiteral(pat)
+		if lit == "" {
+			st.Count("regexp:no-literal-at-the-left-end")
+			return
+		}
+		if !folded {
+			st.Count("regexp:case-sensitive-literal-prefix")
+			return
+		}
+		st.Count("regexp:folded-literal-prefix")
+		for _, k := range n.kids[3].kids {
+			if !k.list && !strings.HasPrefix(k.atom, lit) {
+				st.Count("regexp:folded-literal-prefix-matches-term-outside-its-byte-range")
+				break
+			}
+		}
+	})
 	var res [3]string
 	for i, m := range []string{"all", "topn", "none"} {
 		if cur.poisoned {
@@ -1902,6 +1930,16 @@ func (h) Gen(r *hlib.Rand, tier string, scale int, emit func(string)) {
 		caseNo++
 	}
 
+	// case-folded literals at the left end of regexp patterns over lower / upper / mixed-case keyword terms
+	nfold := 2 * scale
+	if tier == "thorough" {
+		nfold = 20 * scale
+	}
+	for c := 0; c < nfold; c++ {
+		genRegexpFold(r, caseNo, emit)
+		caseNo++
+	}
+
 	ncases := 50 * scale
 	if tier == "thorough" {
 		ncases = 1500 * scale
@@ -2245,6 +2283,81 @@ func genDateEdge(r *hlib.Rand, caseNo int, emit func(string)) {
 	}
 	for _, q := range qs {
 		emit("q " + q.String())
+	}
+}
+
+// leftmostLiteral follows the left-most branch of the parsed pattern through concatenations and capture groups;
+// it returns the literal found there (as regexp/syntax stores it) and whether it carries the FoldCase flag.
+func leftmostLiteral(pat string) (string, bool) {
+	re, err := syntax.Parse(pat, syntax.Perl)
+	if err != nil {
+		return "", false
+	}
+	for re != nil && (re.Op == syntax.OpConcat || re.Op == syntax.OpCapture) {
+		if len(re.Sub) < 1 {
+			return "", false
+		}
+		re = re.Sub[0]
+	}
+	if re != nil && re.Op == syntax.OpLiteral {
+		return string(re.Rune), re.Flags&syntax.FoldCase != 0
+	}
+	return "", false
+}
+
+// genRegexpFold: keyword terms in lower, upper and mixed case sharing their letters (the keyword field is not
+// analysed), and regexp patterns whose LEFT-MOST literal is case-folded — (?i)…, (?i:…)…, a two-case class
+// [aA]…, factored folded alternations, each also behind a leading capture group — next to control patterns
+// that keep a case-sensitive literal prefix; every pattern as a positive clause and as a must-not clause.
+func genRegexpFold(r *hlib.Rand, caseNo int, emit func(string)) {
+	emit(fmt.Sprintf("case %d merge=0", caseNo))
+	kws := []string{"abc", "Abc", "ABC", "aBC", "abd", "ABD", "Abd", "abcd", "ABCD", "aBcD", "xbc", "Xbc", "xbd", "XBD",
+		"bc", "ab", "AB", "b", "B", "bcd", "abC"}
+	for i := len(kws) - 1; i > 0; i-- {
+		j := r.Intn(i + 1)
+		kws[i], kws[j] = kws[j], kws[i]
+	}
+	words := []string{"a", "b", "ab"}
+	n := 0
+	half := len(kws) / 2
+	for b := 0; b < 2; b++ {
+		emit("seg")
+		lo, hi := 0, half
+		if b == 1 {
+			lo, hi = half, len(kws)
+		}
+		for _, kw := range kws[lo:hi] {
+			toks := []string{"d" + strconv.Itoa(n), "t=" + words[r.Intn(len(words))], "k=" + kw}
+			emit("ins " + strings.Join(toks, " "))
+			n++
+		}
+		if b == 1 {
+			emit("del d" + strconv.Itoa(r.Intn(half)))
+			emit("upd d" + strconv.Itoa(r.Intn(half)) + " t=b k=" + kws[r.Intn(len(kws))])
+		}
+	}
+	folded := []string{"(?i)abc", "(?i)ab.*", "(?i:a)bc", "[aA]bc", "[aA]b.*", "(?i:x)bc|(?i:x)bd", "((?i)ab)c.*", "((?i:a)b)d?",
+		"(?i)(abc)d?", "([aA]b)c", "(?i)x.*", "(?i)b", "(?i:ab)(c|d)", "(?i)abcd?"}
+	control := []string{"abc", "ab.*", "(abc)d?", "(ab)(c|d)", "ab(?i:C)", "ABC", "A.*", "(A)b.*", "a(?i)bc", ".?bc", "[ab]c?"}
+	re := func(p string) *sx { return node("re", at("k"), at("x"+hex.EncodeToString([]byte(p)))) }
+	b := func(min int, m, s, nn []*sx) *sx {
+		return node("b", at(strconv.Itoa(min)), ls(m...), ls(s...), ls(nn...))
+	}
+	tt := func() *sx { return node("t", at("t"), at(words[r.Intn(len(words))])) }
+	for _, p := range append(append([]string{}, folded...), control...) {
+		emit("q " + re(p).String())
+		switch r.Intn(3) {
+		case 0:
+			emit("q " + b(0, nil, nil, []*sx{re(p)}).String())
+		case 1:
+			emit("q " + b(0, []*sx{tt()}, nil, []*sx{re(p)}).String())
+		default:
+			emit("q " + b(1, nil, []*sx{re(p), tt()}, []*sx{node("t", at("k"), at("abd"))}).String())
+		}
+	}
+	for _, p := range folded[:6] {
+		emit("q " + b(0, []*sx{node("all")}, nil, []*sx{re(p)}).String())
+		emit("q " + b(0, []*sx{re(p), tt()}, nil, nil).String())
 	}
 }
 
